@@ -9,7 +9,7 @@ cd "$wt" || exit 9
 git checkout -q -- . ; git clean -fdq -e _seed
 git apply _seed/patch.diff || { echo "patch does not apply"; exit 9; }
 suite=$(go test -vet=off -count=1 ./... 2>&1 | grep -E '^(FAIL|---|ok|panic)' | grep -v '^ok' | grep -v 'pkg/cgroup' | grep -v TestCgroupAll | grep -v '^FAIL$' | tr '\n' ';')
-cp _seed/demo/*_test.go "$dest"/ 2>/dev/null
+mkdir -p "$dest"; cp _seed/demo/*_test.go "$dest"/ 2>/dev/null
 for f in _seed/demo/*.c _seed/demo/*.go; do case "$f" in *_test.go) ;; *) [ -e "$f" ] && cp "$f" "$dest"/ ;; esac; done
 with=""; for i in 1 2 3; do if go test -vet=off -count=1 -run "$rx" ./"$dest" >/tmp/seed_with.$$ 2>&1; then with="$with pass"; else with="$with FAIL"; fi; done
 git apply -R _seed/patch.diff
